@@ -548,7 +548,7 @@ def run_pipeline_correspondence(rep, cases, name="pipeline (text -> outcome)"):
                 ok = k == "tokerr" and (obs.get("msg") or "").split(":")[0] in ans
         else:
             ok = False
-        if "assumed=true" in ans and k == "err" and head in ("tree", "invalid"):
+        if "assumed=true" in ans and k == "err" and head in ("tree", "invalid", "tokenizer-error"):
             ok = None  # a helper (literal evaluation, version gate) raised: outside the recogniser's knowledge
             stats["skipped"] = stats.get("skipped", 0) + 1
             continue
